@@ -63,6 +63,7 @@ var redirects = map[string]string{
 	"(*github.com/go-stomp/stomp.Subscription).Unsubscribe":   "verifStompUnsubscribe",
 	"(*github.com/go-stomp/stomp.Subscription).Active":        "verifStompActive",
 	"github.com/nats-io/nuid.Next":                            "verifNuidNext",
+	"github.com/Workiva/frugal/compiler/parser.ParseFrugal":   "verifParseFrugal",
 }
 
 // packages all of whose functions are no-ops returning zero values
